@@ -3305,17 +3305,31 @@ Proof.
   intros HI Hpp Hr. eapply rp1; [apply (pres_reach T s HI)|exact Hpp|]. apply related_part_target in Hr. exact Hr.
 Qed.
 
-Lemma slide_name_fresh T s pp : Inv T s -> st_slides s = true -> getp s (st_pres s) = Some pp ->
-  ~ In (Ids.next_slide_partname (length (pt_idl pp))) (iter_names s).
+(** the part name add_slide gives the new slide (_next_slide_partname as repaired by
+    086e8ef1): in ANY state and for any number of p:sldId entries the call does not raise, the
+    name is a slide part name and no part iter_parts yields carries it *)
+Lemma slide_name_fresh s n :
+  exists k, (1 <= k)%N /\ Ids.next_slide_partname n (iter_names s) = Ok (Ids.slide_name k) /\
+            ~ In (Ids.slide_name k) (iter_names s).
 Proof.
-  intros HI Hs Hpp Hin. pose proof (inv_wfg T s HI) as Hw.
+  destruct (Ids_proofs.next_slide_partname_spec n (iter_names s)) as (k & H1 & H2 & H3 & _). eauto.
+Qed.
+
+(** under the invariant, once prs.slides has been evaluated, no reached part carries the
+    conventional name slide(n+1).xml, so that is the answer: the listed slides stay slide1..n *)
+Lemma slide_name_conventional T s pp : Inv T s -> st_slides s = true -> getp s (st_pres s) = Some pp ->
+  Ids.next_slide_partname (length (pt_idl pp)) (iter_names s)
+  = Ok (Ids.slide_name (N.of_nat (length (pt_idl pp)) + 1)%N).
+Proof.
+  intros HI Hs Hpp. apply Ids_proofs.next_slide_partname_conventional. intros Hin.
+  pose proof (inv_wfg T s HI) as Hw.
   destruct (iv_slides T s HI) as (pp0 & tg & Hpp0 & HF & Hnd & Hdir & Hall & Hnm).
   rewrite Hpp in Hpp0. injection Hpp0 as <-.
   apply (in_iter_names s Hw) in Hin as (p & x & Hpx & En).
   assert (Hd : baseURI (pt_name x) = s_slides_dir) by (rewrite En; apply slide_name_facts).
   pose proof (Hall p x Hpx Hd) as Hp. apply In_nth_error in Hp as (j & Hj).
   pose proof (Hnm Hs j p Hj) as E. destruct Hpx as [_ Hx]. rewrite (name_of_getp s p x Hx), En in E.
-  unfold Ids.next_slide_partname in E. apply Ids_proofs.slide_name_inj in E.
+  apply Ids_proofs.slide_name_inj in E.
   assert (j < length tg) by (apply nth_error_Some; congruence).
   pose proof (Ids_proofs.Forall2_len _ _ _ HF). lia.
 Qed.
@@ -3343,8 +3357,13 @@ Proof.
   pose proof (inv_wfg T s1 HI1) as Hw1.
   assert (Hrm : reachP s1 m) by (eapply master_reach; eauto).
   assert (Hrl : reachP s1 lp) by (eapply rp1; [exact Hrm|exact Hmp|apply related_part_target in Hlp; exact Hlp]).
-  set (nm := Ids.next_slide_partname (length (pt_idl pp))).
-  assert (Hnmf : ~ In nm (iter_names s1)) by (apply (slide_name_fresh T s1 pp HI1 Hs1 Hpp)).
+  set (nm := Ids.slide_name (N.of_nat (length (pt_idl pp)) + 1)%N).
+  apply (MH_bind T _ _ s1 (fun a s2 => a = nm /\ s2 = s1)).
+  { apply MH_lift; auto. intros a Ea. rewrite (slide_name_conventional T s1 pp HI1 Hs1 Hpp) in Ea.
+    injection Ea as <-. split; reflexivity. }
+  intros a s2 _ [-> ->].
+  assert (Hnmf : ~ In nm (iter_names s1)).
+  { eapply Ids_proofs.next_slide_partname_fresh. apply (slide_name_conventional T s1 pp HI1 Hs1 Hpp). }
   destruct (slide_name_facts (N.of_nat (length (pt_idl pp)) + 1)%N) as [Hpn Hdir].
   change (Ids.slide_name (N.of_nat (length (pt_idl pp)) + 1)%N) with nm in Hpn, Hdir.
   set (Y := with_phs (new_part nm ct_slide 0) (pt_phs lx)).
@@ -3427,7 +3446,7 @@ Proof.
   assert (A_names : st_slides sB = true -> forall j q, nth_error [sid] j = Some q ->
             name_of (st_parts sB) q = Ids.slide_name (N.of_nat (length (pt_idl pp) + j) + 1)%N).
   { intros _ j q Hj. destruct j as [|j]; [|destruct j; discriminate]. injection Hj as <-.
-    rewrite HnameB. unfold nm, Ids.next_slide_partname. f_equal. lia. }
+    rewrite HnameB. unfold nm. f_equal. lia. }
   assert (A_nm : forall p0, st_nm sB = Some p0 -> type_filter rt_notes_master [mkR rid rt_slide (TInt sid) None] = []).
   { intros _ _. vm_compute. reflexivity. }
   exact (inv_setp_pres T sB pp PP' [sid] [mkR rid rt_slide (TInt sid) None] [rid] [sid] HT HI3 HppB eq_refl eq_refl
@@ -4235,3 +4254,112 @@ Proof.
   intros Hs H. cbn [step]. rewrite fst_fin. unfold m_add_slide, bindM, m_access_slides. rewrite Hs.
   pose proof (layout_pure s l) as E. destruct (m_layout l s) as [s1 [a|e]]; cbn in *; [discriminate|auto].
 Qed.
+
+(* ------------------------------------------------------------------------------ *)
+(** * add_slide names the new part freshly in EVERY state (no invariant assumed) *)
+
+Lemma bindM_ok {A B} (m : M A) (f : A -> M B) s b : snd (bindM m f s) = Ok b ->
+  exists a, snd (m s) = Ok a /\ bindM m f s = f a (fst (m s)).
+Proof. unfold bindM. destruct (m s) as [s1 [a|e]]; cbn; [eauto|discriminate]. Qed.
+
+Definition names_kept (s s' : state) : Prop :=
+  length (st_parts s') = length (st_parts s) /\ forall q, name_of (st_parts s') q = name_of (st_parts s) q.
+
+Lemma names_kept_refl s : names_kept s s.
+Proof. split; auto. Qed.
+
+Lemma names_kept_trans s1 s2 s3 : names_kept s1 s2 -> names_kept s2 s3 -> names_kept s1 s3.
+Proof. intros [L1 N1] [L2 N2]. split; [congruence|]. intros q. rewrite N2. apply N1. Qed.
+
+Lemma names_kept_setp s p x x' : getp s p = Some x -> pt_name x' = pt_name x -> names_kept s (setp s p x').
+Proof. intros Hx En. split; [apply length_setp|]. intros q. apply (name_of_setp s p x x' q Hx En). Qed.
+
+Lemma names_kept_relate src t g s : names_kept s (fst (m_relate src t g s)).
+Proof.
+  unfold m_relate, bindM, m_part, bindM, getS, lift, ret, fail.
+  destruct (getp s src) as [x|] eqn:Hx; cbn; [|apply names_kept_refl].
+  destruct (get_or_add t g (pt_rels x)) as [[rs rid]|e]; cbn; [|apply names_kept_refl].
+  apply (names_kept_setp s src x); auto.
+Qed.
+
+(** Whatever the state (listed or unlisted slide parts, names in any order, with gaps, even
+    repeated): when add_slide returns, there is exactly one part object more than after the
+    evaluation of prs.slides the call begins with; it is called slideK.xml, K at least 1;
+    no part reached at that point carries this name; every other part object keeps its name. *)
+Theorem add_slide_new_part_fresh T s l :
+  snd (step false T s (AddSlide l)) = Done ->
+  exists k, (1 <= k)%N /\
+    length (st_parts (fst (step false T s (AddSlide l)))) = S (length (st_parts (fst (m_access_slides s)))) /\
+    name_of (st_parts (fst (step false T s (AddSlide l)))) (length (st_parts (fst (m_access_slides s)))) = Ids.slide_name k /\
+    ~ In (Ids.slide_name k) (iter_names (fst (m_access_slides s))) /\
+    forall q, q < length (st_parts (fst (m_access_slides s))) ->
+      name_of (st_parts (fst (step false T s (AddSlide l)))) q = name_of (st_parts (fst (m_access_slides s))) q.
+Proof.
+  cbn [step]. rewrite fst_fin. intros Hd.
+  assert (Hok : snd (m_add_slide l s) = Ok tt).
+  { unfold fin in Hd. destruct (m_add_slide l s) as [s9 [[]|e]]; cbn in *; [reflexivity|discriminate]. }
+  clear Hd. unfold m_add_slide in *.
+  destruct (bindM_ok _ _ _ _ Hok) as ([] & _ & E). rewrite E in *. clear E.
+  set (s1 := fst (m_access_slides s)) in *.
+  destruct (bindM_ok _ _ _ _ Hok) as ([[m lp] rid0] & _ & E). rewrite E in *. clear E.
+  rewrite layout_pure in *.
+  destruct (bindM_ok _ _ _ _ Hok) as (s1' & Es & E). rewrite E in *. clear E.
+  cbn in Es. injection Es as <-. change (fst (getS s1)) with s1 in *.
+  destruct (bindM_ok _ _ _ _ Hok) as (pp & Hpp & E). rewrite E in *. clear E.
+  assert (Hpp' : getp s1 (st_pres s1) = Some pp).
+  { unfold m_part, bindM, getS in Hpp. destruct (getp s1 (st_pres s1)); cbn in Hpp; congruence. }
+  rewrite (m_part_run s1 _ pp Hpp') in *. cbn [fst] in *.
+  destruct (bindM_ok _ _ _ _ Hok) as (lx & Hlx & E). rewrite E in *. clear E.
+  assert (Hlx' : getp s1 lp = Some lx).
+  { unfold m_part, bindM, getS in Hlx. destruct (getp s1 lp); cbn in Hlx; congruence. }
+  rewrite (m_part_run s1 _ lx Hlx') in *. cbn [fst] in *.
+  destruct (bindM_ok _ _ _ _ Hok) as (nm & Hnm & E). rewrite E in *. clear E.
+  cbn in Hnm. change (fst (lift (Ids.next_slide_partname (length (pt_idl pp)) (iter_names s1)) s1)) with s1 in *.
+  destruct (slide_name_fresh s1 (length (pt_idl pp))) as (k & Hk & Ek & Hf).
+  rewrite Ek in Hnm. injection Hnm as <-.
+  set (Y := with_phs (new_part (Ids.slide_name k) ct_slide 0) (pt_phs lx)) in *.
+  destruct (bindM_ok _ _ _ _ Hok) as (sid & Hsid & E). rewrite E in *. clear E.
+  rewrite m_new_run in *. cbn in Hsid. injection Hsid as <-. cbn [fst] in *.
+  set (sA := addp s1 Y) in *.
+  destruct (bindM_ok _ _ _ _ Hok) as (rid1 & _ & E). rewrite E in *. clear E.
+  pose proof (names_kept_relate (length (st_parts s1)) rt_slide_layout (TInt lp) sA) as K1.
+  set (sB := fst (m_relate (length (st_parts s1)) rt_slide_layout (TInt lp) sA)) in *.
+  destruct (bindM_ok _ _ _ _ Hok) as (rid & _ & E). rewrite E in *. clear E.
+  pose proof (names_kept_relate (st_pres s1) rt_slide (TInt (length (st_parts s1))) sB) as K2.
+  set (sC := fst (m_relate (st_pres s1) rt_slide (TInt (length (st_parts s1))) sB)) in *.
+  destruct (bindM_ok _ _ _ _ Hok) as (pp2 & Hpp2 & E). rewrite E in *. clear E.
+  assert (Hpp2' : getp sC (st_pres s1) = Some pp2).
+  { unfold m_part, bindM, getS in Hpp2. destruct (getp sC (st_pres s1)); cbn in Hpp2; congruence. }
+  rewrite (m_part_run sC _ pp2 Hpp2') in *. cbn [fst] in *.
+  rewrite m_setp_run. cbn [fst].
+  pose proof (names_kept_setp sC (st_pres s1) pp2 (with_idl pp2 (pt_idl pp2 ++ [rid])) Hpp2' eq_refl) as K3.
+  destruct (names_kept_trans _ _ _ (names_kept_trans _ _ _ K1 K2) K3) as [KL KN].
+  assert (HlenA : length (st_parts sA) = S (length (st_parts s1))).
+  { unfold sA, addp. cbn [st_parts with_parts]. rewrite app_length. simpl. lia. }
+  exists k. split; [exact Hk|]. split; [rewrite KL; exact HlenA|]. split; [|split; [exact Hf|]].
+  - rewrite KN. rewrite (name_of_getp sA _ Y); [reflexivity|]. apply getp_app_new.
+  - intros q Hq. rewrite KN. unfold name_of, sA, addp. cbn [st_parts with_parts]. rewrite nth_error_app1 by exact Hq. reflexivity.
+Qed.
+
+(** a state that breaks the clause of the invariant the former code needed (a reached slide
+    part the id list does not list, called slide2.xml, beside one listed slide): add_slide
+    still names the new part freshly *)
+Definition wdeck_unlisted : state :=
+  mkS [ w_part (asc "/ppt/presentation.xml") w_ct_pres [rid_ 2] [(k_id, rid_ 1)] 0
+          [mkR (rid_ 1) rt_slide_master (TInt 1) None; mkR (rid_ 2) rt_slide (TInt 3) None; mkR (rid_ 3) rt_slide (TInt 4) None];
+        w_part (asc "/ppt/slideMasters/slideMaster1.xml") ct_slide_master [rid_ 1] [] 0
+          [mkR (rid_ 1) rt_slide_layout (TInt 2) None];
+        w_part (asc "/ppt/slideLayouts/slideLayout1.xml") ct_slide_layout [] [] 1
+          [mkR (rid_ 1) rt_slide_master (TInt 1) None];
+        w_part (asc "/ppt/slides/slide1.xml") ct_slide [] [] 0 [mkR (rid_ 1) rt_slide_layout (TInt 2) None];
+        w_part (asc "/ppt/slides/slide2.xml") ct_slide [] [] 0 [mkR (rid_ 1) rt_slide_layout (TInt 2) None] ]
+      [mkR (rid_ 1) rt_office_document (TInt 0) None] 0 (Some (rid_ 1)) true None None.
+
+Theorem add_slide_unlisted_witness :
+  invb wT wdeck_unlisted = false /\
+  snd (step false wT wdeck_unlisted (AddSlide 0)) = Done /\
+  mem_str (Ids.slide_name 2) (iter_names wdeck_unlisted) = true /\
+  iter_names (fst (step false wT wdeck_unlisted (AddSlide 0))) = iter_names wdeck_unlisted ++ [Ids.slide_name 3] /\
+  Opc.nodupb (iter_names (fst (step false wT wdeck_unlisted (AddSlide 0)))) = true /\
+  saved_closed false wT (fst (step false wT wdeck_unlisted (AddSlide 0))) = true.
+Proof. vm_compute. repeat split; auto. Qed.
